@@ -130,6 +130,14 @@ func init() {
 		}
 		return ex.rtypeIface(iv.T), ctlRet
 	})
+	reg("internal/reflectlite.TypeOf", func(ex *Exec, st *State, fr *Frame, args []Value) (Value, ctlT) {
+		iv := args[0].(IfaceVal)
+		if iv.T == nil {
+			return IfaceVal{}, ctlRet
+		}
+		rt := ex.prog.byPath["internal/reflectlite"].Type("rtype").Type()
+		return IfaceVal{T: types.NewPointer(rt), V: &RType{T: iv.T}}, ctlRet
+	})
 	reg("reflect.ValueOf", func(ex *Exec, st *State, fr *Frame, args []Value) (Value, ctlT) {
 		iv := args[0].(IfaceVal)
 		if iv.T == nil {
